@@ -342,7 +342,7 @@ fn c10_wrap_and_seal() -> R {
         ensure!(x.decrypt_to_recipient(&other.0).is_err(), "a private key that is not a recipient decrypted the envelope", "same scheme");
         ensure!(x.decrypt_to_recipient(&cross.0).is_err(), "a private key that is not a recipient decrypted the envelope", "other scheme");
     } else {
-        let ssch = if rt::thorough() { choice(5) } else { choice(3) };
+        let ssch = if rt::thorough() { choice(5) } else { [0usize, 1, 2, 4][choice(4)] };
         let (sk, sk2) = (sigkey(ssch, 0), sigkey(ssch, 1));
         op("seal");
         let x = e.seal_opt(&sk.0, &rk.1, sig_options(ssch));
@@ -385,7 +385,7 @@ pub fn prop_c10() -> Prop {
                 bounds: "4 subjects (leaf, wrapped node, node with one assertion, node whose subject is a node) x every recipient list of length 1..3 over 4 key pairs (3 X25519, 1 ML-KEM-512; duplicates allowed) x {encrypt_subject_to_recipients, encrypt_subject + add_recipient one at a time, the same interleaved with other assertions (lists of <=2 on a bare subject)} x each of the 4 private keys (listed and unlisted) x every digest order (which hasRecipient assertion is tried first is the hash's choice)",
                 api: &["encrypt_subject_to_recipients", "add_recipient", "recipients", "decrypt_subject_to_recipient", "encrypt_subject", "decrypt_subject"] },
             Scenario { name: "wrap_and_seal", f: c10_wrap_and_seal, thorough_only: false,
-                bounds: "7 envelopes (incl. bare wrapped and doubly wrapped ones) x {X25519, ML-KEM-512} x {encrypt_to_recipient/decrypt_to_recipient, seal/unseal over sender schemes Ed25519 / Schnorr / ECDSA (+ ML-DSA-44, SSH-Ed25519 thorough)} x right key, wrong key of the same scheme, key of the other scheme, wrong sender x every digest order",
+                bounds: "7 envelopes (incl. bare wrapped and doubly wrapped ones) x {X25519, ML-KEM-512} x {encrypt_to_recipient/decrypt_to_recipient, seal_opt/unseal over sender schemes Ed25519 / Schnorr / ECDSA / SSH-Ed25519 with its signing options (+ ML-DSA-44 thorough)} x right key, wrong key of the same scheme, key of the other scheme, wrong sender x every digest order",
                 api: &["encrypt_to_recipient", "decrypt_to_recipient", "seal_opt", "unseal"] },
         ],
         assumptions: { let mut v = COMMON_ASSUMPTIONS.to_vec(); v.push("KEM / AEAD internals are executed natively with concrete keys (VERIF_SEED), not solver-decided"); v },
